@@ -31,10 +31,22 @@ Name classification (local / global / free) is taken from CPython's own `symtabl
 compiler's.  Locals are invisible to the resolver except locals that are bound *only* by import statements
 (`import lena.flow` inside a function makes `lena` such a local).
 
+Control flow.  A block that may or may not run (branch of an `if`, loop body, exception handler, `match` case) is
+bracketed by enter/leave: its loads are checked, its effects are dropped.  Module level only: a `for` over a non-empty
+literal / `range(k)` runs its body (inline); after a statement whose branches are not decided statically the names
+bound on *every* path are bound, and the names bound on *some* path only are **assumed** bound (listed per module
+under `assumed`, counted in `stats`): whether they exist is what the fresh interpreter shows, and a function that
+loads one that does not exist is found by the bytecode oracle.  Inside a function a `try` body is taken to run to
+its end (the path on which an optional module is installed), its handlers are regions.
+
+A local that only import statements bind gets an identifier of its own (`lena (local)`): reading it where no import
+has certainly bound it is an UnboundLocalError (a NameError), never a read of the module's global of the same name.
+
 Static evaluation, under the assumption "CPython 3.12 with the installed distributions of this environment":
-`if` tests that only mention `sys.version_info` / `sys.version` are evaluated and only the live branch is translated
-(the Python-2 branches are counted, not checked); in `try: <imports> except ImportError:` the availability of the
-external module decides which path is taken (the other one is still checked inside enter/leave).
+`if` tests (and `and`/`or`/`not`/conditional expressions) decided by `sys.version_info` / `sys.version` alone, and
+`TYPE_CHECKING`, are evaluated and only the live branch is translated (the Python-2 branches are counted, not
+checked); in a module-level `try: <imports> except ImportError:` the availability of the external module decides
+which path is taken (the other one is still checked inside enter/leave).
 """
 from __future__ import annotations
 
@@ -52,6 +64,7 @@ from pathlib import Path
 
 GEN_REL = "LenaModel/Gen/C20Facts.lean"
 IMPLICIT = ["__name__", "__doc__", "__package__", "__loader__", "__spec__", "__file__", "__cached__", "__builtins__"]
+LOCAL_SUFFIX = " (local)"
 IMPORT_EXC = {"ImportError", "ModuleNotFoundError", "Exception", "BaseException"}
 
 
@@ -115,11 +128,19 @@ class ModuleTranslator:
         self.all = None
         self.all_dynamic = False
         self.may = set()            # names that may be bound at module level (for the namespace upper bound)
+        self.assumed = set()        # names bound on some path only of a module-level statement (assumed bound)
         self.future_annotations = False
 
     # ---- helpers --------------------------------------------------------------------------------------
     def N(self, s):
         return self.tr.intern(s)
+
+    def LN(self, scope, name):
+        """the identifier of `name` as code of `scope` means it: a local that only import statements bind is a
+        name of its own ("lena (local)"), so that it can never be mistaken for the module's global `lena`"""
+        if scope.kind == "function" and name in scope.implocals and name not in getattr(scope, "comp_locals", ()):
+            return self.tr.intern(name + LOCAL_SUFFIX)
+        return self.tr.intern(name)
 
     def note(self, kind, node, text=""):
         self.tr.stats[kind] = self.tr.stats.get(kind, 0) + 1
@@ -156,10 +177,12 @@ class ModuleTranslator:
         if isinstance(node, ast.Name):
             if isinstance(node.ctx, ast.Load):
                 if self.classify(scope, node.id) != "skip":
-                    out.append(("load", self.N(node.id)))
+                    out.append(("load", self.LN(scope, node.id)))
                     self.tr.stats["loads"] += 1
-            elif scope.kind == "module":      # walrus / stray store at module level
+            elif scope.kind == "module" and node.id not in getattr(scope, "comp_locals", ()):
+                # walrus / stray store at module level (the variables of a comprehension do not leak)
                 out.append(("bind", self.N(node.id)))
+                self.may.add(node.id)
             return
         if isinstance(node, ast.Attribute):
             chain, base = [], node
@@ -172,10 +195,10 @@ class ModuleTranslator:
                     chain = chain[:-1]          # the last attribute is written / deleted, not read
                 if self.classify(scope, base.id) != "skip":
                     if chain:
-                        out.append(("attr", self.N(base.id), [self.N(a) for a in chain]))
+                        out.append(("attr", self.LN(scope, base.id), [self.N(a) for a in chain]))
                         self.tr.stats["attr_chains"] += 1
                     else:
-                        out.append(("load", self.N(base.id)))
+                        out.append(("load", self.LN(scope, base.id)))
                         self.tr.stats["loads"] += 1
                 return
             self.expr(base, scope, out)
@@ -293,7 +316,27 @@ class ModuleTranslator:
             return None if v is None else (not v)
         return self.static_atom(test)
 
+    @staticmethod
+    def surely_iterates(it):
+        """the iterable of a `for` is a non-empty literal or `range(c)` with a positive constant"""
+        if isinstance(it, (ast.Tuple, ast.List, ast.Set)):
+            return bool(it.elts) and not any(isinstance(e, ast.Starred) for e in it.elts)
+        if isinstance(it, ast.Dict):
+            return bool(it.keys) and all(k is not None for k in it.keys)
+        if isinstance(it, ast.Constant) and isinstance(it.value, (str, bytes)):
+            return len(it.value) > 0
+        if isinstance(it, ast.Call) and isinstance(it.func, ast.Name) and it.func.id == "range" and not it.keywords \
+                and it.args and all(isinstance(a, ast.Constant) and isinstance(a.value, int) for a in it.args):
+            try:
+                return len(range(*[a.value for a in it.args])) > 0
+            except Exception:
+                return False
+        return False
+
     def static_atom(self, test):
+        if (isinstance(test, ast.Name) and test.id == "TYPE_CHECKING") or \
+                (isinstance(test, ast.Attribute) and test.attr == "TYPE_CHECKING"):
+            return False        # typing.TYPE_CHECKING is False at run time
         names = {n.id for n in ast.walk(test) if isinstance(n, ast.Name)}
         attrs = {n.attr for n in ast.walk(test) if isinstance(n, ast.Attribute)}
         if names == {"sys"} and attrs and attrs <= {"version_info", "version", "major", "minor", "hexversion"} \
@@ -328,6 +371,39 @@ class ModuleTranslator:
             elif isinstance(st, ast.With):
                 s |= self.must_binds(st.body)
         return s
+
+    def may_binds(self, body):
+        """names that `body` may bind at this scope level (every branch, loop bodies, handlers)"""
+        s = set(self.must_binds(body))
+        for st in body:
+            for fld in ("body", "orelse", "finalbody"):
+                sub = getattr(st, fld, None)
+                if isinstance(sub, list) and not isinstance(st, (ast.FunctionDef, ast.AsyncFunctionDef, ast.ClassDef)):
+                    s |= self.may_binds([x for x in sub if isinstance(x, ast.stmt)])
+            if isinstance(st, (ast.For, ast.AsyncFor)):
+                s |= {n.id for n in ast.walk(st.target) if isinstance(n, ast.Name)}
+            if isinstance(st, (ast.With, ast.AsyncWith)):
+                for it in st.items:
+                    if it.optional_vars is not None:
+                        s |= {n.id for n in ast.walk(it.optional_vars) if isinstance(n, ast.Name)}
+            for h in getattr(st, "handlers", []) or []:
+                s |= self.may_binds(h.body)
+            for c in getattr(st, "cases", []) or []:
+                s |= self.may_binds(c.body)
+        return s
+
+    def assume(self, names, must, scope, out):
+        """module level, after a statement whose branches are not decided statically: names bound on some path only
+        are *assumed* bound (the fresh interpreter shows whether they are; a function that loads one that is not
+        there is found by the bytecode oracle), names bound on every path are bound"""
+        if scope.kind != "module":
+            return
+        for n in sorted(names):
+            out.append(("bind", self.N(n)))
+            self.may.add(n)
+            if n not in must:
+                self.assumed.add(n)
+                self.tr.stats["assumed_conditional_bindings"] = self.tr.stats.get("assumed_conditional_bindings", 0) + 1
 
     def stmts(self, body, scope, out):
         for st in body:
@@ -397,7 +473,7 @@ class ModuleTranslator:
                 if isinstance(t, ast.Name):
                     c = self.classify(scope, t.id)
                     if scope.kind == "module" or c == "implocal":
-                        out.append(("unbind", N(t.id)))
+                        out.append(("unbind", self.LN(scope, t.id)))
                     elif c == "global":
                         self.note("dynamic_global_delete_in_function", st, t.id)
                 else:
@@ -407,12 +483,18 @@ class ModuleTranslator:
             body = []
             self.target(st.target, scope, body)
             self.stmts(st.body, scope, body)
-            self._emit_region(body, st.body, scope, out)
+            if self.surely_iterates(st.iter) and not any(isinstance(n, (ast.Break, ast.Continue, ast.Return, ast.Raise))
+                                                          for b in st.body for n in ast.walk(b)):
+                out.extend(body)        # the body runs at least once, to its end: what it binds is bound
+            else:
+                self._emit_region(body, st.body, scope, out)
+                self.assume(self.may_binds([st]), set(), scope, out)
             self.region(st.orelse, scope, out)
         elif isinstance(st, ast.While):
             self.expr(st.test, scope, out)
             self.region(st.body, scope, out)
             self.region(st.orelse, scope, out)
+            self.assume(self.may_binds([st]), set(), scope, out)
         elif isinstance(st, ast.If):
             v = self.static_test(st.test)
             if v is not None:
@@ -427,9 +509,8 @@ class ModuleTranslator:
                 self.expr(st.test, scope, out)
                 self.region(st.body, scope, out)
                 self.region(st.orelse, scope, out)
-                if scope.kind == "module" and st.orelse:
-                    for n in sorted(self.must_binds(st.body) & self.must_binds(st.orelse)):
-                        out.append(("bind", N(n)))
+                must = (self.must_binds(st.body) & self.must_binds(st.orelse)) if st.orelse else set()
+                self.assume(self.may_binds([st]), must, scope, out)
         elif isinstance(st, (ast.With, ast.AsyncWith)):
             for it in st.items:
                 self.expr(it.context_expr, scope, out)
@@ -452,6 +533,7 @@ class ModuleTranslator:
                 self.expr(c.guard, scope, sub)
                 self.stmts(c.body, scope, sub)
                 self._emit_region(sub, c.body, scope, out)
+            self.assume(self.may_binds([st]), set(), scope, out)
         else:   # Expr, Return, Raise, Assert, ...
             for child in ast.iter_child_nodes(st):
                 self.expr(child, scope, out)
@@ -471,7 +553,9 @@ class ModuleTranslator:
     def try_(self, st, scope, out):
         # first direct statement of the body that imports an external module which is not installed here
         k_fail = None
-        for k, b in enumerate(st.body):
+        # (inside a function the body is assumed to run to its end -- the path on which the module is installed --
+        # and the handlers are checked as regions; only import-bound locals depend on it there)
+        for k, b in enumerate(st.body if scope.kind != "function" else []):
             mods = []
             if isinstance(b, ast.Import):
                 mods = [a.name for a in b.names]
@@ -528,7 +612,7 @@ class ModuleTranslator:
                     return
             except KeyError:
                 pass
-        out.append(("bindMod", self.N(name), mod) if mod is not None else ("bind", self.N(name)))
+        out.append(("bindMod", self.LN(scope, name), mod) if mod is not None else ("bind", self.LN(scope, name)))
 
     def ensure_chain(self, dotted, out):
         """ensure events for lena, lena.a, lena.a.b; returns the module id of `dotted` or None if it does not exist"""
@@ -592,7 +676,7 @@ class ModuleTranslator:
                     self.may.add(asn)
                 if scope.kind == "class":
                     continue
-                out.append(("from", mid, self.N(a.name), self.N(asn)))
+                out.append(("from", mid, self.N(a.name), self.LN(scope, asn)))
 
     def set_all(self, value, replace):
         try:
@@ -682,14 +766,14 @@ class Translator:
             parent = m.rpartition(".")[0]
             mods.append({"name": m, "is_pkg": is_pkg, "parent": self.modid.get(parent) if parent else None,
                          "short": m.rpartition(".")[2], "all": mt.all, "all_dynamic": mt.all_dynamic,
-                         "evs": evs, "funcs": mt.funcs, "main": False, "may": sorted(mt.may),
+                         "evs": evs, "funcs": mt.funcs, "main": False, "may": sorted(mt.may), "assumed": sorted(mt.assumed),
                          "path": str(path.relative_to(self.repo))})
         lena_id = self.modid["lena"]
         for m in subpkgs:
             mid = self.modid[m]
             evs = [("ensure", lena_id), ("ensure", mid), ("bindMod", self.intern("lena"), lena_id), ("star", mid)]
             mods.append({"name": f"__main__[{m}]", "is_pkg": False, "parent": None, "short": f"__main__[{m}]",
-                         "all": None, "all_dynamic": False, "evs": evs, "funcs": [], "main": True, "may": [],
+                         "all": None, "all_dynamic": False, "evs": evs, "funcs": [], "main": True, "may": [], "assumed": [],
                          "entry_pkg": mid, "path": None})
         evs = [("ensure", lena_id)]
         for m in subpkgs:
@@ -698,8 +782,8 @@ class Translator:
         for m in subpkgs:
             evs.append(("star", self.modid[m]))
         mods.append({"name": "__main__[all]", "is_pkg": False, "parent": None, "short": "__main__[all]", "all": None,
-                     "all_dynamic": False, "evs": evs, "funcs": [], "main": True, "may": [], "entry_pkg": None,
-                     "path": None})
+                     "all_dynamic": False, "evs": evs, "funcs": [], "main": True, "may": [], "assumed": [],
+                     "entry_pkg": None, "path": None})
         for md in mods:
             md["name_id"] = self.intern(md["name"])
             md["short_id"] = self.intern(md["short"])
@@ -707,11 +791,65 @@ class Translator:
             for f in md["funcs"]:
                 f["name_id"] = self.intern(f["name"])
         entries = [self.modid[x] for x in mains]
+        self.renumber(mods, n_builtins)
         priv = [i for i, s in enumerate(self.intern.names) if s.startswith("_")]
         return {"repo": str(self.repo), "source_hash": hasher.hexdigest(), "names": self.intern.names,
+                "n_bindable": self.n_bindable,
                 "n_builtins": n_builtins, "modules": mods, "entries": entries, "private": priv,
                 "subpackages": subpkgs, "stats": self.stats, "notes": self.notes,
                 "python": sys.version.split()[0]}
+
+
+def _bindable(mods):
+    """identifiers that can ever be bound in a namespace (module globals, import-bound locals, submodule attributes)"""
+    out = set()
+    for m in mods:
+        out.add(m["short_id"])
+        out.update(m["all_ids"] or [])
+        for evs in [m["evs"]] + [f["evs"] for f in m["funcs"]]:
+            for e in evs:
+                if e[0] in ("bind", "bindMod", "unbind"):
+                    out.add(e[1])
+                elif e[0] == "from":
+                    out.add(e[2])
+                    out.add(e[3])
+    return out
+
+
+def _renumber(self, mods, n_builtins):
+    """builtins keep their numbers; then the bindable identifiers; then the rest (names that are only read, display
+    names).  The rows of the resolver's namespace array only need the first two groups."""
+    old_names = self.intern.names
+    bindable = _bindable(mods)
+    order = list(range(n_builtins)) + sorted(i for i in bindable if i >= n_builtins) + \
+        [i for i in range(n_builtins, len(old_names)) if i not in bindable]
+    new_of = {o: k for k, o in enumerate(order)}
+    self.n_bindable = n_builtins + sum(1 for i in bindable if i >= n_builtins)
+
+    def ev(e):
+        k = e[0]
+        if k in ("bind", "unbind", "load", "nomodule"):
+            return (k, new_of[e[1]])
+        if k == "bindMod":
+            return (k, new_of[e[1]], e[2])
+        if k == "attr":
+            return (k, new_of[e[1]], [new_of[a] for a in e[2]])
+        if k == "from":
+            return (k, e[1], new_of[e[2]], new_of[e[3]])
+        return e
+
+    for m in mods:
+        m["name_id"], m["short_id"] = new_of[m["name_id"]], new_of[m["short_id"]]
+        m["all_ids"] = None if m["all_ids"] is None else [new_of[a] for a in m["all_ids"]]
+        m["evs"] = [ev(e) for e in m["evs"]]
+        for f in m["funcs"]:
+            f["name_id"] = new_of[f["name_id"]]
+            f["evs"] = [ev(e) for e in f["evs"]]
+    self.intern.names = [old_names[o] for o in order]
+    self.intern.ids = {s: i for i, s in enumerate(self.intern.names)}
+
+
+Translator.renumber = _renumber
 
 
 # ------------------------------------------------------------------------------------------------------------
@@ -802,7 +940,7 @@ def render_lean(facts):
     L.append(f"  entries := [{', '.join(map(str, facts['entries']))}]")
     L.append(f"  nBuiltins := {facts['n_builtins']}")
     L.append(f"  priv := [{', '.join(map(str, facts['private']))}]")
-    L.append(f"  nNames := {len(facts['names'])}")
+    L.append(f"  nNames := {facts['n_bindable']}")
     L.append(f"  slotBits := {(len(facts['modules']) + 2).bit_length()}")
     L.append("")
     L.append("/-- display strings of the interned identifiers (used by the driver only, never by a theorem) -/")
